@@ -72,6 +72,10 @@ type c11Target struct {
 	// valid-frame language: property orders and forms the library's own
 	// encoder never emits)
 	Frame []byte
+	// HasContent: the rich packet of the type with content number CI of
+	// gen.AllContents() in its string/binary field number SI
+	HasContent bool
+	SI, CI     int
 }
 
 const c11Mods = 7
@@ -106,6 +110,14 @@ func c11Modify(q mq.Packet, m int) {
 func (t c11Target) describe() string {
 	if t.Frame != nil {
 		return "packet decoded from the valid frame " + abbrevHex(t.Frame)
+	}
+	if t.HasContent {
+		ss := gen.Sites(denseBase(t.Type, 0))
+		all := gen.AllContents()
+		if t.SI < len(ss) && t.CI < len(all) {
+			return fmt.Sprintf("%s rich with %s = %q", gen.Schemas[t.Type].Name, ss[t.SI].Name, all[t.CI])
+		}
+		return gen.Schemas[t.Type].Name + " rich with a special content"
 	}
 	d := gen.Schemas[t.Type].Describe(t.Vec)
 	if t.Mod > 0 {
@@ -281,7 +293,18 @@ func c11ReadOnly(t c11Target, seq []int) *core.Finding {
 		}
 		q = r
 	} else {
-		p := gen.Schemas[t.Type].Make(t.Vec)
+		var p *spec.Packet
+		if !t.HasContent {
+			p = gen.Schemas[t.Type].Make(t.Vec)
+		} else {
+			all := gen.AllContents()
+			if t.CI >= len(all) {
+				return nil
+			}
+			if p = gen.WithSiteContent(denseBase(t.Type, 0), t.SI, all[t.CI]); p == nil {
+				return nil
+			}
+		}
 		b, err, res := buildGuarded(p)
 		if err != nil || res.Panic != "" {
 			return nil
@@ -513,6 +536,37 @@ func runC11(x *core.Ctx) {
 			return map[string]any{"type": s.Name, "packets": len(targets), "operation_sequences_each": len(seqs)}
 		})
 	}
+	// every string field of the rich packet of every type with every special
+	// and mined content (a validator or renderer that looks into a field):
+	// sequences of <= 2 read-only operations
+	for _, ty := range allTypes {
+		ns := len(gen.Sites(denseBase(ty, 0)))
+		for si := 0; si < ns; si++ {
+			if !x.Mine() {
+				continue
+			}
+			if x.Expired() {
+				return
+			}
+			for ci := range gen.AllContents() {
+				t := c11Target{Type: ty, HasContent: true, SI: si, CI: ci}
+				for _, sq := range seqs {
+					if len(sq) > 2 {
+						continue
+					}
+					x.Eval("readonly.contents")
+					x.R.Transitions += int64(len(sq))
+					if f := c11ReadOnly(t, sq); f != nil {
+						sq, t := sq, t
+						x.Report(f, func() core.Case {
+							return core.Case{Harness: "c11.readonly", Choices: sq, Params: map[string]any{"type": int(t.Type), "content": true, "si": t.SI, "ci": t.CI}}
+						}, func() *core.Finding { return c11ReadOnly(t, sq) })
+					}
+				}
+				x.R.States++
+			}
+		}
+	}
 	// packets that came from the wire in a form the library's own encoder
 	// does not emit (every frame of the valid corpus): sequences of <= 2
 	// read-only operations
@@ -638,6 +692,9 @@ func replayC11(c core.Case) *core.Finding {
 		u, _ := c.Params["uniform"].(bool)
 		return c11OrderFinding(t, paramStr(c.Params, "op"), c.Choices, u)
 	case "c11.readonly":
+		if hc, _ := c.Params["content"].(bool); hc {
+			t.HasContent, t.SI, t.CI = true, paramInt(c.Params, "si"), paramInt(c.Params, "ci")
+		}
 		if c.Frame != "" {
 			t.Frame = unhex(c.Frame)
 		}
